@@ -32,6 +32,7 @@ type RunConfig struct {
 	Workers          int
 	XSolvers         []SolverKind
 	TrackOrder       bool
+	RenderMax        int // >0: fixed-precision float verbs render to 4..RenderMax symbolic bytes
 	Prefix           []Dec // run only this path (replay inside the engine)
 	Deadline         time.Time
 }
